@@ -499,7 +499,8 @@ Inductive ffupd := FU (q : sigspec) (v : option Z).
 
 (* e0: settled environment before the inputs changed; e1: settled with the new inputs and the old state.
    A flip-flop whose clock has its active edge between k0 and k1 takes D as it was before the edge (in e0).
-   Ordinarily (k0, k1) = (e0, e1); for the simulator's behaviour F7 (see step) they are e1 with the domain's clock
+   Ordinarily (k0, k1) = (e0, e1); with a virtual clock pulse (see step; the simulator's behaviour before the repair
+   of F7, not used by the check any more) they are e1 with the domain's clock
    input forced to its inactive / active level. *)
 Definition ff_update (k0 k1 e0 e1 : wenv) (it : item) : list ffupd :=
   match it with
@@ -622,8 +623,8 @@ Definition opt_eqb (a b : option Z) : bool :=
 Definition clocks_stable (items : list item) (e1 e2 : wenv) : bool :=
   forallb (fun c => opt_eqb (rd_spec e1 c) (rd_spec e2 c)) (clocks_of items).
 
-(* vclk = [] : the RTLIL semantics.  vclk = [(clock input, inactive level, active level)] : the simulator's behaviour
-   F7 on a rise of an async reset — every clocked element that would see an active edge if that clock input pulsed
+(* vclk = [] : the RTLIL semantics (what the check uses).  vclk = [(clock input, inactive level, active level)] : the
+   behaviour the simulator had before /repo commit 574e1db (finding F7, repaired) on a rise of an async reset — every clocked element that would see an active edge if that clock input pulsed
    behaves as if it did (the sync process of the domain runs), with D taken before the step as usual. *)
 Definition step (sf : bool) (fl : flat) (fuel : nat) (st : state) (ins : list (nat * Z))
                 (vclk : list (nat * Z * Z)) : state * Z :=
@@ -686,7 +687,7 @@ Definition observe (e : wenv) (obs : list (option (option nat * Z))) : list Z :=
 (* all rows of all memories (instance order), observed after the wires when `obsmem` *)
 Definition observe_mem (obsmem : bool) (me : menv) : list Z := if obsmem then concat me else [].
 
-(* a stimulus step: (emit an observation row after it?, input changes, virtual clock pulses (F7 semantics only)) *)
+(* a stimulus step: (emit an observation row after it?, input changes, virtual clock pulses (always [] in the check)) *)
 Definition sstep := (bool * list (nat * Z) * list (nat * Z * Z))%type.
 
 Definition run_gen (sf : bool) (obsmem : bool) (d : doc) (obs : list (option (list nat * nat * Z)))
